@@ -22,9 +22,15 @@ def plans(res, maxreq, rng=None, sample=None):
     return out
 
 
-def run_plan(mods, res, p):
-    sysm, ctlm, typm = mods
-    s = sysm.CoordinationSystem()
+def run_plan(mods, res, p, via_cell=False):
+    sysm, ctlm, typm = mods[:3]
+    cell = None
+    if via_cell:                      # the same plan through IntegratedCell.execute (operon_ai/cell.py), which wraps the coordination system
+        cell = mods[3].IntegratedCell()
+        cell.register_agent("agent-op")
+        s = cell.coordination
+    else:
+        s = sysm.CoordinationSystem()
     for r in res:
         s.register_resource(r, allow_preemption=r in p["preempt"])
     c = s.controller
@@ -69,7 +75,10 @@ def run_plan(mods, res, p):
         return p["val"] == "true"
     out = {"raised": False}
     try:
-        r = s.execute_operation("op", "agent-op", work, resources=list(p["req"]), validate_fn=None if p["val"] == "none" else validate, priority=p["prio"])
+        if cell is not None:
+            r = cell.execute("agent-op", "op", work, resources=list(p["req"]), validate_fn=None if p["val"] == "none" else validate, priority=p["prio"])
+        else:
+            r = s.execute_operation("op", "agent-op", work, resources=list(p["req"]), validate_fn=None if p["val"] == "none" else validate, priority=p["prio"])
         out["success"] = bool(r.success)
     except Exception as ex:
         out["raised"], out["success"], out["exc"] = True, False, type(ex).__name__
@@ -83,8 +92,9 @@ def exec_batch(args):
     res, plist, tag = args
     base.use_repo()
     import importlib
-    mods = tuple(importlib.import_module("operon_ai.coordination." + m) for m in ("system", "controller", "types"))
-    recs = [{"plan": p, "out": run_plan(mods, res, p)} for p in plist]
+    mods = tuple(importlib.import_module("operon_ai.coordination." + m) for m in ("system", "controller", "types")) + (importlib.import_module("operon_ai.cell"),)
+    recs = [{"plan": p, "out": run_plan(mods, res, p, via_cell=(j % 4 == 3)), "entry": "IntegratedCell.execute" if j % 4 == 3 else "CoordinationSystem.execute_operation"}
+            for j, p in enumerate(plist)]
     d = tlc.scratch_dir("c14." + tag)
     path = os.path.join(d, "recs.ndjson")
     with open(path, "w") as f:
@@ -104,7 +114,7 @@ def exec_batch(args):
         for cname in cl:
             p = rec["plan"]
             dup = len(set(p["req"])) < len(p["req"])
-            fails.append(("%s exit=%s%s" % (cname, exit_kind(p), " repeated-resource" if dup else ""), dict(rec, clause=cname)))
+            fails.append(("%s exit=%s%s%s" % (cname, exit_kind(p), " repeated-resource" if dup else "", " via-cell" if rec["entry"].startswith("Integrated") else ""), dict(rec, clause=cname)))
     return {"n": len(recs), "fails": fails, "drift": len(dr), "drift_samples": [recs[i - 1] for i in dr[:2]], "distinct": r.get("distinct", 0),
             "generated": r.get("generated", 0), "sample": recs[len(recs) // 2],
             "nontrivial": sum(1 for x in recs if x["out"]["workRuns"] or any(v != "none" for v in x["plan"]["pre"].values()))}
@@ -162,7 +172,7 @@ def extra(R, tier):
     R.cov["execute_operation_runs"] = tot
     R.cov["rule"] += ("; plus every fault plan of execute_operation (request lists <= 3 over 2-3 resources incl. repeats, pre-owners, preemptable sets, "
                       "priority, failing/raising checkpoint per phase, work ok/raise/kill/shutdown/nested-preemptor, validate none/true/false/raise; "
-                      "sampled when the space exceeds the tier budget) run on the real CoordinationSystem and judged by TLC")
+                      "sampled when the space exceeds the tier budget) run on the real CoordinationSystem (every fourth plan through IntegratedCell.execute) and judged by TLC")
 
 
 def run(tier):
